@@ -80,7 +80,8 @@ def _payloads(ctx: Any, dpt: Any) -> list[Any]:
     rng = ctx.rng
     n = dpt.payload_length
     if dpt.payload_type is DPTBinary:
-        return list(range(64))
+        # both documented forms: a single int (what the encode tool returns) and a one-element list; all 64 values incl. 0
+        return [v for i in range(64) for v in (i, [i])]
     if n == 1:
         return [[b] for b in range(256)]
     out: list[list[int]] = []
@@ -129,8 +130,18 @@ async def _inverse_for_class(ctx: Any, dpt: Any, payloads: list[Any]) -> None:
             ctx.count("decode_refused_payload")
             ctx.distinct((name, "decode-refused"))
             continue
-        except BaseException as exc:  # noqa: BLE001 - C07 judges decode totality; here it only ends the case
-            ctx.count(f"recorded_decode_raised_{type(exc).__name__}")
+        except BaseException as exc:  # noqa: BLE001
+            # C07 judges what the DPT decoders raise; the tool itself must treat both spellings of a 6-bit payload alike
+            if isinstance(payload, int):
+                try:
+                    await decode_dpt_payload(DecodeDptPayloadInput(payload=[payload], value_type=vt))
+                except BaseException:  # noqa: BLE001
+                    ctx.count(f"recorded_decode_raised_{type(exc).__name__}")
+                else:
+                    ctx.violation(f"decode_dpt_payload-refuses-int-form-of-payload-it-accepts-as-list-{type(exc).__name__}", {**wit, "exception": repr(exc)[:200]},
+                                  f"{name}: decode(payload={payload}) raised {exc!r:.80} but decode(payload=[{payload}]) is accepted")
+            else:
+                ctx.count(f"recorded_decode_raised_{type(exc).__name__}")
             continue
         ctx.count("decoded")
         back = _json_native(ctx, "decode_dpt_payload", dec, wit)
@@ -170,6 +181,45 @@ async def _inverse_for_class(ctx: Any, dpt: Any, payloads: list[Any]) -> None:
             ctx.distinct((name, "inverse-broken"))
         if len(ctx.samples) < 2 and i == 7:
             ctx.sample({"dpt": name, "payload": payload, "decoded_json": x, "re_encoded": eb["payload"], "kind": kind})
+    # encode first: zero / empty / falsy inputs wherever the type accepts them; the encode result is taken verbatim
+    # (payload field as it comes out of a JSON cycle: int or list) and handed to the decode tool
+    falsy: list[Any] = [0, 0.0, False, "", "0", -0.0, [0], {}, None, 1, True]
+    if kind == "enum":
+        falsy += [m.name.lower() for m in dpt.get_valid_values()]
+    for v in falsy:
+        for vt in vts:
+            ctx.ev()
+            try:
+                enc = await encode_dpt_payload(EncodeDptPayloadInput(value=v, value_type=vt))
+            except BaseException:  # noqa: BLE001 - not a valid value of this type
+                ctx.count("encode_first_value_refused")
+                continue
+            wit = {"dpt": name, "value_type": vt, "value": v}
+            eb = _json_native(ctx, "encode_dpt_payload", enc, wit)
+            if eb is None:
+                continue
+            wit["re_encoded"] = eb["payload"]
+            try:
+                dec = await decode_dpt_payload(DecodeDptPayloadInput(payload=eb["payload"], value_type=vt))
+            except BaseException as exc:  # noqa: BLE001
+                ctx.violation(f"{name}-decode-refuses-own-encoded-payload", {**wit, "exception": repr(exc)[:200]},
+                              f"{name}: encode({v!r}) = {eb['payload']!r} which decode refuses: {exc!r:.100}")
+                continue
+            db = _json_native(ctx, "decode_dpt_payload", dec, wit)
+            if db is None:
+                continue
+            ctx.count("encode_first_checked")
+            if not eb["payload"]:
+                ctx.count("encode_first_falsy_payload_decoded")
+            try:
+                enc2 = await encode_dpt_payload(EncodeDptPayloadInput(value=db["value"], value_type=vt))
+                again = enc2.payload
+            except BaseException as exc:  # noqa: BLE001
+                again = repr(exc)
+            if again != eb["payload"]:
+                ctx.violation(f"{name}-decode-encode-not-inverse", {**wit, "decoded_json": db["value"], "encoded_again": again},
+                              f"{name}: encode({v!r}) = {eb['payload']!r}, decode -> {db['value']!r:.60}, encode -> {again!r:.60}")
+            ctx.distinct((name, "encode-first", type(v).__name__, type(eb["payload"]).__name__))
     # arbitrary in-range numbers: the decoded value must be a fixpoint (nearest-form distance is C09's)
     if kind == "numeric":
         rng = ctx.rng
@@ -250,7 +300,7 @@ async def _paging(ctx: Any) -> None:
         else:
             main = rng.choice((None, None, rng.choice(mains), rng.choice(mains), 0, 4711, -1))
             w = rng.choice(words)
-            text = rng.choice((None, None, w, w.upper(), w[: rng.randint(1, max(1, len(w)))], w[rng.randrange(len(w)):], ".", "0", "°", "\n", "zzzz-no-match", " ", "%"))
+            text = rng.choice((None, None, "", w, w.upper(), w[: rng.randint(1, max(1, len(w)))], w[rng.randrange(len(w)):], ".", "0", "°", "\n", "zzzz-no-match", " ", "%"))
         ref = _ref_listing(main, text)
         limit = rng.choice((1, 1, 2, 3, 5, 7, 10, 50, 199, 200, 201, 229, 230, 231, 1000, max(1, len(ref)), max(1, len(ref) - 1), len(ref) + 1)) if k else 7
         ctx.ev()
@@ -463,7 +513,7 @@ def run(ctx: Any) -> None:
         "describe_dpt for every number and value-type name; read/send tools on a real XKNX with generated inputs. distinct = (class, outcome, JSON type) "
         "/ (filter shape, limit class, #pages) / (tool, outcome, input types)"
     )
-    ctx.require("results_checked", "decoded", "encoded", "inverse_checked", "inverse_held", "page_walks", "page_walks_exact", "pages_fetched",
+    ctx.require("results_checked", "decoded", "encoded", "inverse_checked", "inverse_held", "encode_first_checked", "encode_first_falsy_payload_decoded", "page_walks", "page_walks_exact", "pages_fetched",
                 "results_list_dpts", "results_describe_dpt", "results_decode_dpt_payload", "results_encode_dpt_payload")
     loop = new_loop()
     try:
